@@ -21,6 +21,7 @@ from vf import obs
 from vf.core import Violation
 from vf.gen import calls as gc
 from vf.gen import dims as gd
+from vf.models import dimlang as dl
 
 ID = "C17"
 LEVEL = "exploration"
@@ -33,7 +34,7 @@ RULE = (
     "a composition, or a rejected case; distinct by (specs, shapes, in_axes)."
 )
 ASSUMPTIONS = [
-    "CPU backend, jax 0.6.2, float32 arrays (grad needs inexact inputs); {arg} holes are not used (static arguments are C05's subject)",
+    "CPU backend, jax 0.6.2, float32 arrays (grad needs inexact inputs); f-string axes refer to the static shape of an array argument ({x.shape[0]})",
     "a function whose return annotation is violated is compared on 'raises TypeCheckError' only (the failing trace is abandoned by JAX)",
 ]
 
@@ -50,7 +51,8 @@ def build(case, ck, counter):
     parts = []
     for p in case["params"]:
         ns[f"A_{p['name']}"] = Float[jax.Array, gc.spec_of(p)]
-        parts.append(f"{p['name']}: A_{p['name']}")
+        # a numeric default (the argument is passed explicitly anyway) on the trailing parameters
+        parts.append(f"{p['name']}: A_{p['name']}" + (" = 1.0" if p.get("default") else ""))
     retstr = ""
     if case["ret"] is not None:
         ns["A_ret"] = Float[jax.Array, gc.spec_of(case["ret"])]
@@ -88,7 +90,12 @@ def check_case(ctx, case):
     import jax.numpy as jnp
 
     obs.reset_state()
-    ref = gc.reference_verdict(case)
+    import types as _types
+
+    checks = [(gc.meanings_of(p), p["shape"]) for p in case["params"]]
+    if case["ret"] is not None:
+        checks.append((gc.meanings_of(case["ret"]), case["ret"]["shape"]))
+    ref = dl.satisfiable(checks, args={p["name"]: _types.SimpleNamespace(shape=tuple(p["shape"])) for p in case["params"]})
     if ref is None:
         return
     ck = case["checker"]
@@ -171,6 +178,16 @@ def c17_case(draw):
     for e in case["params"] + ([case["ret"]] if case["ret"] else []):
         e["shape"] = [min(s, 5) if s != 7 else 5 for s in e["shape"]]
     n = len(case["params"])
+    # trailing parameters may carry a numeric default
+    nd = draw(st.sampled_from([0, 1, 2, 0]))
+    for p in case["params"][max(0, n - nd):]:
+        p["default"] = True
+    # the return annotation may use an f-string axis over an *array* argument's shape ({x.shape[0]}): legitimate under
+    # tracing too, a tracer has a static shape
+    if case["ret"] is not None and case["params"][0]["shape"] and draw(st.integers(0, 2)) == 0:
+        case["ret"]["tokens"].insert(0, gc.tok_json(dl.Token("", "sym", ("holeidx", "x", "shape", 0))))
+        right = case["params"][0]["shape"][0]
+        case["ret"]["shape"].insert(0, right if draw(st.integers(0, 3)) else right + 1)
     axes = []
     for p in case["params"]:
         r = len(p["shape"])
